@@ -31,7 +31,8 @@ class Exec(ExprMixin, CallMixin):
     self.fn = fn_node
     self.ctr = ctr
     self.class_name = class_name
-    self.module_globals = module_globals or {}
+    self.module_globals = dict(C.MODULE_GLOBALS.get(ctr.file, {}))
+    self.module_globals.update(module_globals or {})
     self.obligations = []
     self.unsupported = []
     self.paths = 0
@@ -94,6 +95,9 @@ class Exec(ExprMixin, CallMixin):
     finally:
       s.pop()
 
+  def feasible_full(self, st, cond=None):
+    return self.feasible(st, cond, full=True)
+
   def fork(self, st, cond):
     """Returns [(state, bool)] for the feasible sides of `cond`."""
     cond = z3.simplify(cond)
@@ -123,6 +127,9 @@ class Exec(ExprMixin, CallMixin):
       elif kind == 'lemma':
         P, lo = self.lemma_fns[name]
         out.append(z3.Implies(t >= lo, P(t)))
+      elif kind == 'nvar':
+        # definite description of store_nvar: name = (g, has array), t = candidate count
+        out.append(nvar_is(name[0], name[1], t))
       else:
         raise ValueError(kind)
     return out
@@ -470,7 +477,13 @@ class Exec(ExprMixin, CallMixin):
       fields = set(fields) | {n[2:] for n in h.names() if n.startswith('f:')}
       fields.discard('*')
     for f in fields:
-      h = h.set('f:' + f, fresh('hv_f_' + f, ValArr))
+      if mod is None:
+        h = h.set('f:' + f, fresh('hv_f_' + f, ValArr))
+      else:
+        new = h.get('f:' + f)
+        for r in mod:
+          new = z3.Store(new, r, fresh('hvf_' + f, Val))
+        h = h.set('f:' + f, new)
     # allocation may have grown
     na = fresh('hv_alloc', I)
     facts.append(na >= st.heap.alloc)
@@ -683,6 +696,19 @@ class Exec(ExprMixin, CallMixin):
     facts = []
     for v in args.values():
       facts.append(z3.Implies(is_VRef(v), ref(v) < heap.alloc))
+    # closed heap: no container of the initial heap holds a reference to a not yet
+    # allocated object (Python has no dangling references)
+    rr, ii = z3.Ints('cl_r cl_i')
+    kk = z3.Const('cl_k', Val)
+    dv, le = heap.get('dval'), heap.get('lelt')
+    facts.append(z3.ForAll([rr, kk], z3.Implies(is_VRef(dv[rr][kk]), ref(dv[rr][kk]) < heap.alloc),
+                           patterns=[dv[rr][kk]]))
+    facts.append(z3.ForAll([rr, ii], z3.Implies(is_VRef(le[rr][ii]), ref(le[rr][ii]) < heap.alloc),
+                           patterns=[le[rr][ii]]))
+    from pyvc.sorts import SINGLETONS, SINGLETON_CLASS
+    from pyvc.state import cls_fn
+    for name, r in SINGLETONS.items():
+      facts.append(cls_fn(z3.IntVal(r)) == z3.IntVal(CLASSES[SINGLETON_CLASS[name]]))
     return facts
 
   def frame_goals(self, ctx, st):
@@ -698,11 +724,17 @@ class Exec(ExprMixin, CallMixin):
           z3.And(r < self.entry_heap.alloc, *[r != m for m in mod]),
           after[r] == before[r]))))
     for n in st.heap.names():
-      if n.startswith('f:') and n[2:] not in self.ctr.writes:
+      if n.startswith('f:'):
         before, after = self.entry_heap.get(n), st.heap.get(n)
-        if not before.eq(after):
+        if before.eq(after):
+          continue
+        if n[2:] not in self.ctr.writes:
           goals.append((f'frame:{n}', z3.ForAll([r], z3.Implies(
               r < self.entry_heap.alloc, after[r] == before[r]))))
+        else:
+          goals.append((f'frame:{n}', z3.ForAll([r], z3.Implies(
+              z3.And(r < self.entry_heap.alloc, *[r != m for m in mod]),
+              after[r] == before[r]))))
     return goals
 
   def check_normal_exit(self, o):
